@@ -40,10 +40,15 @@ Definition shares_tx (s cs : snap) : bool :=
    panics unless cs can be encoded by the common snapshot encoding *)
 Definition snap_version : N := Z.to_N Consts.RoundSnapVersion.
 Definition snap_tx_max : N := Z.to_N Consts.RoundSnapTxMax.
+Fixpoint nodup_txs (l : list N) : bool :=
+  match l with
+  | [] => true
+  | x :: t => negb (existsb (N.eqb x) t) && nodup_txs t
+  end.
 Definition encodable (cs : snap) : bool :=
   let n := N.of_nat (length (s_txs cs)) in
   (s_version cs =? snap_version) && (1 <=? n) && (n <=? snap_tx_max)
-  && negb ((s_round cs =? 0) && negb (n =? 1)).
+  && negb ((s_round cs =? 0) && negb (n =? 1)) && nodup_txs (s_txs cs).
 
 (* the loop over c.Snapshots: Ok tt = fell through, Err = an error was returned *)
 Fixpoint scan (s : snap) (l : list snap) : res unit :=
